@@ -441,11 +441,19 @@ impl KeyMap {
     where
         K: Debug + Hash + PartialEq + Eq + Send + Sync + 'static,
     {
+        // `initialize` reads the collection out of the store; for a keyed field nested in an
+        // item of another keyed field that read looks up the keys of the outer field in this
+        // same map. It must therefore run before an entry of the map is locked: holding the
+        // shard lock of this path while locking the shard of the outer path deadlocks
+        // whenever the two paths share a shard.
         #[cfg(not(target_arch = "wasm32"))]
-        let mut entry = self
-            .0
-            .entry(path)
-            .or_insert_with(|| Box::new(FieldKeys::new(initialize())));
+        if !self.0.contains_key(&path) {
+            let initial: Box<dyn Any + Send + Sync> =
+                Box::new(FieldKeys::new(initialize()));
+            self.0.entry(path.clone()).or_insert(initial);
+        }
+        #[cfg(not(target_arch = "wasm32"))]
+        let mut entry = self.0.get_mut(&path)?;
 
         #[cfg(target_arch = "wasm32")]
         let entry = if !self.0.borrow().contains_key(&path) {
